@@ -1209,13 +1209,19 @@ func ReturnMaySucceed(fn *ssa.Function, r *ssa.Return) bool {
 	if op == nil {
 		return false
 	}
-	for _, v := range Resolve(op) {
-		if v == Zero || v == nil || IsNilConst(v) {
+	vals := append([]ssa.Value{op}, Resolve(op)...)
+	for i, v := range vals {
+		if i > 0 && (v == Zero || v == nil || IsNilConst(v)) {
 			return true
 		}
-		k := ErrKinds(v, nil)
-		if !k["unknown"] {
-			continue
+		if i == 0 && (v == Zero || v == nil || IsNilConst(v)) {
+			return true
+		}
+		if i > 0 {
+			k := ErrKinds(v, nil)
+			if !k["unknown"] {
+				continue
+			}
 		}
 		nonNil := func(cond ssa.Value) (bool, bool) {
 			b, ok := cond.(*ssa.BinOp)
@@ -1241,10 +1247,19 @@ func ReturnMaySucceed(fn *ssa.Function, r *ssa.Return) bool {
 		}
 		cut := PassEdges(fn, nonNil)
 		if len(cut) == 0 {
+			if i == 0 {
+				continue
+			}
 			return true
 		}
 		if hit, _ := Search(Entry(fn), Is(r), SearchOpt{Cut: cut}); hit != nil {
+			if i == 0 {
+				continue
+			}
 			return true
+		}
+		if i == 0 {
+			return false // the returned variable itself is known non-nil on every path to this return
 		}
 	}
 	return false
